@@ -237,3 +237,13 @@ func (m *Model) Depth(reg int) int {
 	}
 	return best
 }
+
+// NilOutput reports whether the identity is provided by an output that its
+// constructor always returns as nil (registered, but there is nothing to resolve).
+func (m *Model) NilOutput(id Ident) bool {
+	if o, ok := m.Owner(id); ok {
+		r := m.Regs[o.Reg]
+		return o.Out < len(r.Outs) && r.Outs[o.Out].Nil
+	}
+	return false
+}
